@@ -15,7 +15,11 @@ Request (one line, single spaces):
 * fault classes of a task (what the worker running it does):
   `nobytes`   dies holding the call item, nothing written (argument unpickling, task start, mid-task, result pickling),
   `midsend`   dies after writing the first bytes of its result message,
-  `aftersend` dies after writing the complete result message.
+  `aftersend` dies after writing the complete result message,
+  `unpicklefail` `call_queue.get()` raises in the worker (`sys.exit()` while unpickling): `_RemoteTraceback`, exit,
+  `taskexc`   the task raises (`sys.exit()` in the task or while its result is pickled): no death at all.
+Second request form: `exitname <exit code> <k> (<signal number> <name>)*` → `name <s>` | `raises ValueError`
+(`_get_exitcode_name` with `signal.Signals` given as a table).
 
 The client is joblib's: a call = (`configure` unless inside a `with` block) ; submit every task ; wait ;
 on an exception `abort_everything(ensure_ready = managed)`, else `terminate()` when not managed.
@@ -29,7 +33,7 @@ Malformed request: `bad-op`. -/
 open JoblibModel JoblibModel.LokyMgr JoblibModel.IOUtil
 
 inductive FaultCls where
-  | nobytes | midsend | aftersend
+  | nobytes | midsend | aftersend | unpicklefail | taskexc
 deriving DecidableEq, Repr
 
 structure CallSpec where
@@ -58,6 +62,8 @@ def cls? (s : String) : Option FaultCls :=
   if s = "nobytes" then some .nobytes
   else if s = "midsend" then some .midsend
   else if s = "aftersend" then some .aftersend
+  else if s = "unpicklefail" then some .unpicklefail
+  else if s = "taskexc" then some .taskexc
   else none
 
 def parseFaults : Nat → List String → Option (List (Nat × FaultCls) × List String)
@@ -131,9 +137,12 @@ def lowestIdle (s : State) : Option Nat :=
 
 /-- `call_queue.get()`: the idle live worker with the lowest pid takes the head call item (idle workers are
 interchangeable). `none` when no worker can take anything. -/
-def workerTake (s : State) : Option State :=
+def workerTake (victims : List (Nat × FaultCls)) (s : State) : Option State :=
   match lowestIdle s, s.call_queue with
-  | some p, _ :: _ => some (step fnTask s (.take p))
+  | some p, it :: _ =>
+    -- `unpicklefail`: `call_queue.get()` itself raises in the worker (it puts a `_RemoteTraceback` and exits)
+    if victims.lookup it.wid = some .unpicklefail then some (step fnTask s (.unpickleFail p))
+    else some (step fnTask s (.take p))
   | _, _ => none
 
 /-- The workers that hold a call item and have not begun to send. -/
@@ -150,6 +159,8 @@ def workerFinish (victims : List (Nat × FaultCls)) (s : State) (p : Nat) (it : 
   | some .nobytes => step fnTask s (.kill p)
   | some .midsend => step fnTask (step fnTask s (.beginSend p)) (.kill p)
   | some .aftersend => step fnTask (step fnTask s (.sendResult p)) (.kill p)
+  | some .taskexc => step fnTask s (.sendTaskExc p)      -- the task raised (`sys.exit()` included): not a death
+  | some .unpicklefail => step fnTask s (.kill p)        -- not reached: such an item is never taken
 
 inductive CallEnd where
   | ok
@@ -241,7 +252,7 @@ def exploreCall (victims : List (Nat × FaultCls)) (wids : List Nat) :
       | none =>
         let (sm, _) := managerStep s
         let succs := (if sm == s then [] else [sm]) ++
-          (match workerTake s with | some sw => if sw == s then [] else [sw] | none => []) ++
+          (match workerTake victims s with | some sw => if sw == s then [] else [sw] | none => []) ++
           ((busyWorkers s).map (fun (p, it) => workerFinish victims s p it)).filter (fun sw => sw != s)
         if succs.isEmpty then
           let acc := if acc.contains (s, .hang) then acc else (s, .hang) :: acc
@@ -391,7 +402,34 @@ def insertSorted (x : String) : List String → List String
 
 def sortStrings (l : List String) : List String := l.foldr insertSorted []
 
+def parseNames : Nat → List String → Option (List (Nat × String))
+  | 0, [] => some []
+  | 0, _ => none
+  | k + 1, n :: name :: r => do
+    let n ← n.toNat?
+    let rest ← parseNames k r
+    pure ((n, name) :: rest)
+  | _, _ => none
+
+/-- `exitname <exit code> <k> (<signal number> <name>)*` → `name <s>` | `raises ValueError`. -/
+def handleExitname (toks : List String) : String :=
+  match toks with
+  | code :: k :: r =>
+    match code.toInt?, k.toNat? with
+    | some code, some k =>
+      match parseNames k r with
+      | some names =>
+        match getExitcodeName names code with
+        | .ok s => "name " ++ s
+        | .error .valueError => "raises ValueError"
+      | none => "bad-op"
+    | _, _ => "bad-op"
+  | _ => "bad-op"
+
 def handle (line : String) : String :=
+  match tokens line with
+  | "exitname" :: r => handleExitname r
+  | _ =>
   match parseScn line with
   | none => "bad-op"
   | some scn =>
